@@ -26,6 +26,42 @@ CONFINED = {
 }
 
 
+def rule_inline_constants(chk):
+    """The buffer-address option exists for one HLSL flavour only; a module that compiles without it must compile with
+    it. With it, Module::assign_api_bindings (bindmodel, is_buffer_address walked) places addresses as inline constants
+    and the HLSL exporter writes ONE uint64_t per inline binding, asserting that the sizes agree: every inline block must
+    therefore be exactly 8 bytes per binding placed in it - for plain and qualified addresses, and with tables (arrays)
+    of addresses in the module, which are resources with slots like any other array."""
+    import bindmodel as BM
+    import c06
+    f = chk.facts
+    aab = f.fn("assign_api_bindings", "rssl_ir")
+    if not aab:
+        return
+    m = BM.BindModel(f)
+    o = {k: m.obj(k) for k in c06.REG}
+    scen = {"addresses": [("global", o["BufferAddress"], None, False), ("global", o["Texture2D"], None, False), ("global", o["RWBufferAddress"], None, False), ("global", o["BufferAddress"], 3, False)],
+            "qualified-address": [("global", m.mod(o["BufferAddress"]), None, False), ("global", o["RWBufferAddress"], None, False)],
+            "address-table": [("global", m.array(o["BufferAddress"], 4), None, False), ("global", o["BufferAddress"], None, False)],
+            "qualified-address-table": [("global", m.mod(m.array(m.mod(o["RWBufferAddress"]), 2)), 1, False), ("global", o["RWBufferAddress"], 1, False), ("global", o["Texture2D"], 1, False)]}
+    params = {"require_slot_type": False, "support_buffer_address": True, "metal_slot_layout": False, "static_samplers_have_slots": True}
+    for name, decls in scen.items():
+        r = m.run(decls, None, params)
+        if len(r) == 2:
+            if r[0] == "unreadable":
+                chk.note("C18.inline: assign_api_bindings is not readable on the model (%s); not decided" % (r[1],))
+                return
+            chk.ob("C18.inline/" + name, False, "assign_api_bindings %s on a module with buffer addresses (%s)" % r, where(aab))
+            continue
+        places, icb, _ = r
+        bad = None
+        for g, _loc, size in icb:
+            cnt = sum(1 for p_ in places if p_ and p_[0] == g and p_[1] == "inline")
+            if size != 8 * cnt:
+                bad = "group %s: the inline constant block is %s bytes for %d inline binding(s); the HLSL exporter writes one 8-byte member per binding and asserts the sizes agree: compile() aborts for HlslForVulkan with buffer addresses while the other targets succeed" % (g, size, cnt)
+        chk.ob("C18.inline/" + name, bad is None, bad or "every inline block is 8 bytes per binding placed in it", where(aab), sample={"scenario": name})
+
+
 def run(chk):
     f = chk.facts
     comp = chk.anchor("C18.anchor/compile", f.fn("compile", "rssl", path_contains="compile::compile"), "rssl::compile")
@@ -42,6 +78,7 @@ def run(chk):
             rule_arms(chk, bp)
     if not rule_bindings_eval(chk):
         rule_peel(chk)
+    rule_inline_constants(chk)
     import c02
     c02.rule_simplify_cbuffers_eval(chk, prefix="C18.cbuffers")     # Metal-only pass: every cbuffer keeps a global with its name and slot
     import c05
